@@ -4,6 +4,7 @@ package main
 
 import (
 	"fmt"
+	"go/constant"
 	"go/token"
 	"go/types"
 
@@ -617,4 +618,179 @@ var betweenArrayWitnesses = []Witness{
 		{File: "operator.go", Old: "\tv, ok := params[0].(int64)\n\tif !ok {\n\t\treturn nil, errTypeInt(between, params[0])\n\t}\n\ta, ok := params[1].(int64)\n\tif !ok {\n\t\treturn nil, errTypeInt(between, params[1])\n\t}\n\tb, ok := params[2].(int64)\n\tif !ok {\n\t\treturn nil, errTypeInt(between, params[2])\n\t}\n", New: "\tvar ints [3]int64\n\tfor i, p := range params {\n\t\tn, ok := p.(int64)\n\t\tif !ok {\n\t\t\treturn nil, errTypeInt(between, p)\n\t\t}\n\t\tints[i] = n\n\t}\n\n\tv, a, b := ints[1], ints[0], ints[2]\n"}}},
 	{Name: "between-array-form-leaves-the-collecting-loop-early", Rule: "R-FOLD", Edits: []Edit{
 		{File: "operator.go", Old: "\tv, ok := params[0].(int64)\n\tif !ok {\n\t\treturn nil, errTypeInt(between, params[0])\n\t}\n\ta, ok := params[1].(int64)\n\tif !ok {\n\t\treturn nil, errTypeInt(between, params[1])\n\t}\n\tb, ok := params[2].(int64)\n\tif !ok {\n\t\treturn nil, errTypeInt(between, params[2])\n\t}\n", New: "\tvar ints [3]int64\n\tfor i, p := range params {\n\t\tn, ok := p.(int64)\n\t\tif !ok {\n\t\t\treturn nil, errTypeInt(between, p)\n\t\t}\n\t\tints[i] = n\n\t\tif i == 1 {\n\t\t\tbreak\n\t\t}\n\t}\n\n\tv, a, b := ints[0], ints[1], ints[2]\n"}}},
+}
+
+// ---- R-PASSORDER ----------------------------------------------------------------
+//
+// optimize runs the passes in the order of the `optimizations` list (R-OPTGATE). Reordering sorts the operands of each
+// and/or node; ReduceNesting splices the operands of a nested same-kind and/or into its parent. If the splice came after
+// the sort, the flattened node would be a concatenation of separately sorted runs — not a stable cost order of its
+// operands (C16), and the evaluation order would depend on nesting that ReduceNesting is meant to erase (C02's "guard
+// patterns stay safe" is stated for Reordering off only; with it on, cost order is the contract). So the list — a
+// literal of option constants that nothing writes — names ReduceNesting before Reordering.
+func rulePassOrder(w *World, r *Report) {
+	const rule = "R-PASSORDER"
+	r.Rule(rule, "the optimizations list is a constant list that names ReduceNesting before Reordering: operands are sorted only after nested and/or groups were merged", 1)
+	list, pos, err := w.StringList("optimizations")
+	if err != nil {
+		r.Unresolved(rule, err.Error())
+		return
+	}
+	want := map[string]string{}
+	for _, nm := range []string{"ReduceNesting", "Reordering"} {
+		c := w.ConstObj(nm)
+		if c == nil || c.Val().Kind() != constant.String {
+			r.Unresolved(rule, "option constant "+nm+" not found")
+			return
+		}
+		want[nm] = constant.StringVal(c.Val())
+	}
+	idx := func(v string) int {
+		for i, x := range list {
+			if x == v {
+				return i
+			}
+		}
+		return -1
+	}
+	ri, oi := idx(want["ReduceNesting"]), idx(want["Reordering"])
+	r.Check(ri >= 0 && oi >= 0 && ri < oi, rule, w.Pos(pos), "optimizations", fmt.Sprintf("pass order %v", list), "nested and/or groups are merged before operands are sorted",
+		"Reordering runs before ReduceNesting (or one of them is missing from the list): separately sorted groups are spliced together afterwards, the flattened and/or is not in cost order and equal-cost operands leave source order")
+	// nothing writes the list after initialisation
+	if g := w.GlobalVar("optimizations"); g != nil {
+		for _, fn := range w.SortedFuncs(funcSet(w.Funcs)) {
+			if fn.Name() == "init" && fn.Parent() == nil && fn.Signature.Recv() == nil {
+				continue
+			}
+			EachInstr(fn, func(in ssa.Instruction) {
+				st, ok := in.(*ssa.Store)
+				if !ok {
+					return
+				}
+				root := st.Addr
+				if ia, okia := root.(*ssa.IndexAddr); okia {
+					if a, okl := isLoad(ia.X); okl {
+						root = a
+					}
+				}
+				if root == ssa.Value(g) {
+					r.Fail(rule, w.InstrPos(st), w.Name(fn), "write to the optimizations list", "the pass order is changed at run time")
+				}
+			})
+		}
+	}
+}
+
+var passOrderWitnesses = []Witness{
+	{Name: "reduce-nesting-runs-after-reordering", Rule: "R-PASSORDER", Doc: "seeded change C16-j", Edits: []Edit{
+		{File: "compiler.go", Old: "	optimizations = []CompileOption{ConstantFolding, ReduceNesting, FastEvaluation, Reordering}", New: "	optimizations = []CompileOption{ConstantFolding, FastEvaluation, Reordering, ReduceNesting}"}}},
+	{Name: "benign-fast-evaluation-before-reduce-nesting", Benign: true, Edits: []Edit{
+		{File: "compiler.go", Old: "	optimizations = []CompileOption{ConstantFolding, ReduceNesting, FastEvaluation, Reordering}", New: "	optimizations = []CompileOption{ConstantFolding, FastEvaluation, ReduceNesting, Reordering}"}}},
+}
+
+// ---- R-REDUCEALL ----------------------------------------------------------------
+//
+// R-REDUCEGATE says an operator is reduced ONLY after the arriving token lost the precedence comparison. The converse:
+// the reduction goes on for as long as the arriving token loses — the loop of buildTopOperators is left only when the
+// operator stack is empty, when `)` met its `(`, when the arriving token binds tighter than the stack top, or with an
+// error. Any other way out leaves operators on the stack that the arriving operator should have taken as its left
+// operand: `a && !b || c` groups as `a && (!b || c)`.
+func ruleReduceAll(w *World, r *Report) {
+	const rule = "R-REDUCEALL"
+	r.Rule(rule, "the reduction loop of the infix parser is left only with an empty operator stack, after the parenthesis match, on winning the precedence comparison, or with an error", 3)
+	pie := w.MustFn(r, rule, "(*parser).parseInfixExpression")
+	if pie == nil {
+		return
+	}
+	cmp, reduce := infixClosures(pie)
+	if cmp == nil || reduce == nil {
+		r.Unresolved(rule, "comparePrecedence / buildTopOperators closures not found")
+		return
+	}
+	// the reduction loop: the outermost loop header of the closure
+	var hdr *ssa.BasicBlock
+	for _, b := range reduce.Blocks {
+		back := false
+		for _, p := range b.Preds {
+			if b.Dominates(p) {
+				back = true
+			}
+		}
+		if back && len(b.Succs) == 2 && (hdr == nil || b.Dominates(hdr)) {
+			hdr = b
+		}
+	}
+	if hdr == nil {
+		r.Unresolved(rule, "reduction loop not found in "+w.Name(reduce))
+		return
+	}
+	inLoop := func(b *ssa.BasicBlock) bool { return hdr.Dominates(b) && reachable(b, hdr) }
+	lp, _ := constStringNamed(w, "lParen")
+	rp, _ := constStringNamed(w, "rParen")
+	exits := 0
+	for _, x := range reduce.Blocks {
+		if !inLoop(x) {
+			continue
+		}
+		for k, y := range x.Succs {
+			if inLoop(y) {
+				continue
+			}
+			exits++
+			what := fmt.Sprintf("exit of the reduction loop at %s", w.InstrPos(x.Instrs[len(x.Instrs)-1]))
+			// with an error
+			if ret := blockReturn(y); ret != nil && len(ret.Results) == 1 && !isNilConst(ret.Results[0]) {
+				r.OK(rule, w.InstrPos(ret), w.Name(reduce), what, "returns an error")
+				continue
+			}
+			// the loop condition (operator stack empty)
+			if x == hdr {
+				if iff, ok := x.Instrs[len(x.Instrs)-1].(*ssa.If); ok {
+					if bo, okb := iff.Cond.(*ssa.BinOp); okb {
+						if c, okc := constInt(bo.Y); okc && c == 0 {
+							r.OK(rule, w.InstrPos(iff), w.Name(reduce), what, "the operator stack is empty")
+							continue
+						}
+					}
+				}
+			}
+			facts := append(append([]Fact{}, factsAt(x)...), factsAtEdge(x, k)...)
+			won, lpar, rpar := false, false, false
+			for _, f := range facts {
+				if call, stopTruth, ok := cmpStopFact(f.Cond, cmp); ok && f.Truth == stopTruth {
+					if na := len(call.Call.Args); na >= 2 && varRoot(call.Call.Args[na-2]) == reduce.Params[0] {
+						won = true
+					}
+				}
+				if bo, ok := f.Cond.(*ssa.BinOp); ok && bo.Op == token.EQL && f.Truth {
+					if _, okf := loadOfField(bo.X, "token", "typ"); okf {
+						if s, oks := constString(bo.Y); oks {
+							if s == lp {
+								lpar = true
+							}
+							if s == rp {
+								rpar = true
+							}
+						}
+					}
+				}
+			}
+			r.Check(won || (lpar && rpar), rule, w.InstrPos(x.Instrs[len(x.Instrs)-1]), w.Name(reduce), what,
+				"taken on winning the precedence comparison, or after `)` met `(`",
+				"the reduction can stop although the arriving token still loses against the operator on top of the stack: that operator is left for later and takes the wrong left operand (precedence and left associativity are lost)")
+		}
+	}
+	if exits == 0 {
+		r.Unresolved(rule, "the reduction loop has no exit")
+	}
+}
+
+var wave10Witnesses15 = []Witness{
+	{Name: "reduction-stops-after-a-prefix-operator", Rule: "R-REDUCEALL", Doc: "seeded change C15-j", Edits: []Edit{
+		{File: "parser.go", Old: "				push(ast)\n			}\n			return nil\n		}\n	)", New: "				push(ast)\n\n				if p.getInfixOpInfo(top.t.val).childCount == 1 && car.typ == ident {\n					break\n				}\n			}\n			return nil\n		}\n	)"}}},
+}
+
+var wave10Witnesses14 = []Witness{
+	{Name: "lexer-doubled-quote-continues-the-string", Rule: "R-FMTCLASS", Doc: "seeded change C14-j", Edits: []Edit{
+		{File: "parser.go", Old: "				if A[i] == '\"' {\n					i++\n					return string(A[start:i]), nil\n				}", New: "				if A[i] == '\"' {\n					if i > start+1 && i+1 < len(A) && A[i+1] == '\"' {\n						i++\n						continue\n					}\n					i++\n					return string(A[start:i]), nil\n				}"}}},
 }
